@@ -2,6 +2,7 @@
   C20 — Loosening RP policy never rejects (authentication part; registration below once modelled).
 -/
 import Proofs.VerifyAuth
+import Proofs.VerifyReg
 namespace Webauthn.Props.C20
 open Webauthn Generated
 
@@ -26,14 +27,18 @@ theorem auth_mono {W : World} {c : AuthCred} {e e' : AuthExpect} {r : VerifiedAu
     challengeOk := by rw [hl.challenge]; exact a.challengeOk
     originOk' := hl.origins _ a.originOk'
     rpOk := by rw [hl.rpId]; exact a.rpOk
+    upOk := ?_
     uvOk := ?_
     ctrOk := by rw [hl.count]; exact a.ctrOk
     keyOk := by rw [hl.publicKey]; exact a.keyOk }⟩
-  have h1 := a.uvOk
-  have h2 := hl.uv
-  revert h1 h2
-  unfold authUvRejects
-  cases e.requireUV <;> cases e'.requireUV <;> cases a.ad.flags.uv <;> simp
+  · have h1 := a.upOk; have h0 := a.uvOk; have h2 := hl.uv
+    revert h0 h1 h2
+    unfold authUpRejects authUvRejects
+    cases e.requireUV <;> cases e'.requireUV <;> cases a.ad.flags.uv <;> cases a.ad.flags.up <;> simp
+  · have h1 := a.uvOk; have h0 := a.upOk; have h2 := hl.uv
+    revert h0 h1 h2
+    unfold authUpRejects authUvRejects
+    cases e.requireUV <;> cases e'.requireUV <;> cases a.ad.flags.uv <;> cases a.ad.flags.up <;> simp
 
 /-- a superset of the expected origins is looser -/
 theorem origins_superset {ss ss' : List String} (h : ∀ s ∈ ss, s ∈ ss') (o : JVal)
@@ -61,5 +66,51 @@ theorem single_into_list {s : String} {ss : List String} (h : s ∈ ss) (o : JVa
     (ho : originOk (.single s) o = true) : originOk (.many ss) o = true := by
   rw [single_as_list] at ho
   exact origins_superset (by intro t ht; simp at ht; rw [ht]; exact h) o ho
+
+/-! ### registration -/
+
+/-- `e'` is at least as loose as `e` for registration: additionally user presence may be waived
+and the allowed algorithms may grow -/
+structure RegLooser (e e' : RegExpect) : Prop where
+  challenge : e'.challenge = e.challenge
+  rpId : e'.rpId = e.rpId
+  roots : e'.rootsByFmt = e.rootsByFmt
+  up : e'.requireUP = true → e.requireUP = true
+  uv : e'.requireUV = true → e.requireUV = true
+  origins : ∀ o, originOk e.origin o = true → originOk e'.origin o = true
+  algs : ∀ i ∈ e.supportedAlgs, i ∈ e'.supportedAlgs
+
+theorem algAllowed_mono {alg : Cbor} {l l' : List Int} (h : ∀ i ∈ l, i ∈ l')
+    (ha : algAllowed alg l = true) : algAllowed alg l' = true := by
+  unfold algAllowed at *
+  split at ha
+  · rename_i i hi
+    simp only [List.contains_eq_mem, decide_eq_true_eq] at ha ⊢
+    exact h i ha
+  · cases ha
+
+theorem reg_mono {W : World} {c : RegCred} {e e' : RegExpect} {r : VerifiedReg}
+    (hl : RegLooser e e') (h : runM W (verifyReg c e) = .ok r) :
+    runM W (verifyReg c e') = .ok r := by
+  obtain ⟨a⟩ := verifyReg_ok_iff.mp h
+  have hroots : rootsFor e' a.ao.fmt = rootsFor e a.ao.fmt := by unfold rootsFor; rw [hl.roots]
+  refine verifyReg_ok_iff.mpr ⟨{ a with
+    challengeOk := by rw [hl.challenge]; exact a.challengeOk
+    originOk' := hl.origins _ a.originOk'
+    rpOk := by rw [hl.rpId]; exact a.rpOk
+    upOk := ?_
+    uvOk := ?_
+    algOk := algAllowed_mono hl.algs a.algOk
+    rootsOk := by rw [hroots]; exact a.rootsOk }⟩
+  · have h1 := a.upOk; have h2 := hl.up; have h3 := hl.uv
+    revert h1 h2 h3
+    unfold regUpRejects
+    cases e.requireUP <;> cases e'.requireUP <;> cases e.requireUV <;> cases e'.requireUV <;>
+      cases a.ao.authData.flags.up <;> cases a.ao.authData.flags.uv <;> simp
+  · have h1 := a.uvOk; have h2 := hl.up; have h3 := hl.uv
+    revert h1 h2 h3
+    unfold regUvRejects
+    cases e.requireUP <;> cases e'.requireUP <;> cases e.requireUV <;> cases e'.requireUV <;>
+      cases a.ao.authData.flags.up <;> cases a.ao.authData.flags.uv <;> simp
 
 end Webauthn.Props.C20
